@@ -8,10 +8,16 @@ MANIFEST = dict(
          "right after connecting it restores the state, the watch set and the seen set, and does not abort), "
          "C14_best_chain (for every admissible history of connections and disconnections of any depth the monitor "
          "equals the one obtained by connecting only the surviving best chain; induction over histories), "
-         "C14_no_abort (no connection or disconnection of an admissible history aborts).  The model is run against a "
+         "C14_no_abort (no connection or disconnection of an admissible history aborts), C14_best_chain_restarts "
+         "(restarts anywhere change nothing: persist / restore), C14_chain_state (the ChainState handed to the validators "
+         "is part of the view), C14_window (a disconnection is refused exactly below the creation height or more than "
+         "MAX_REORG_SIZE = 100 below the highest block ever connected).  The model is run against a "
          "real channel's ChainMonitor on a real Node (through ChainTracker::add_block / remove_block / block_chunk and "
-         "through the ChainListener interface) on the same block histories on every run, and a fresh-replay monitor "
-         "checks the property itself on the implementation's answers.",
+         "through the ChainListener interface; compact, watched and streamed proofs; signer restarts through the KVV "
+         "persister on regtest and testnet; channels set up inside a streamed block; the edge of the header window) on "
+         "the same block histories on every run, and implementation-side monitors (fresh replay of the best chain, no "
+         "panic, no refusal inside the window, monitor height = tracker height = ChainState, recorded close = confirmed "
+         "transaction, restart leaves the tracker untouched) check the property itself on the implementation's answers.",
     design="§4 C14",
     note=lib.TB + "Modelled, not verified: the classification of a transaction that spends the funding outpoint "
          "(decode_commitment_number, decode_commitment_tx, get_spendable_htlc_indices) is an oracle attached to the "
